@@ -616,6 +616,20 @@ func countDims(c *kit.Ctx, j jWorld) {
 	dim(j.MinValues == "BestEffort", "min-values-best-effort")
 	dim(j.Prefs == "Ignore", "preferences-ignored")
 	dim(j.DefaultTSC != "", "scheduler-config-default-spread-"+j.DefaultTSC)
+	dim(j.ZoneAlias, "zone-value-aliases-registered")
+	aliased := func(z string) bool { return strings.HasPrefix(z, "zone-alias-") }
+	for _, n := range j.Nodes {
+		for _, p := range n.Pods {
+			dim(aliased(p.ReqZone) || aliased(p.PrefZone), "running-pod-affinity-uses-zone-alias")
+		}
+	}
+	for _, p := range j.Pending {
+		dim(aliased(p.ReqZone) || aliased(p.PrefZone), "pending-pod-affinity-uses-zone-alias")
+	}
+	for _, p := range j.Pools {
+		dim(aliased(p.ZoneReq), "pool-requirement-uses-zone-alias")
+	}
+	dim(j.ZoneAlias && j.Buffer > 0, "virtual-pod-affinity-uses-zone-alias")
 	dim(j.BatchMax > 0, "batch-max-duration-set")
 	dim(j.CPUReq > 0, "parallel-scheduler-workers")
 	noPool := true
@@ -718,6 +732,11 @@ func main() {
 	for i := 0; i < worlds; i++ {
 		r := c.Rand.Fork()
 		j := genWorld(r, c.Thorough())
+		// a provider's value mapping is process-global (the cloud provider registers it at start-up): set per world
+		delete(v1.NormalizedLabelValues, corev1.LabelTopologyZone)
+		if j.ZoneAlias {
+			v1.NormalizedLabelValues[corev1.LabelTopologyZone] = map[string]string{"zone-alias-1": "test-zone-1", "zone-alias-2": "test-zone-2"}
+		}
 		w := newWorld(j)
 		scheduling.MaxInstanceTypes = 600
 		if j.MaxITs > 0 {
@@ -730,6 +749,7 @@ func main() {
 		for k := range j.Ops {
 			runOp(c, w, k)
 		}
+		delete(v1.NormalizedLabelValues, corev1.LabelTopologyZone)
 		c.Count(fmt.Sprintf("ops-per-world:%d", len(j.Ops)))
 		c.Count(fmt.Sprintf("candidates:%d", lo.Ternary(len(w.cands) > 3, 3, len(w.cands))))
 		if !c.Thorough() && time.Since(start) > 40*time.Second {
